@@ -1,6 +1,6 @@
 (* Entry point of the documentation-table check of C08: which columns an element writes. *)
 From Coq Require Import String NArith List Bool.
-From GF Require Import Base.Res Spec.DocCheck.
+From GF Require Import Base.Res Base.Bytes Model.SFlow Spec.DocCheck Spec.DocCheck2 Spec.EncNFv5 Spec.EncSFlow.
 Import ListNotations.
 Local Open Scope string_scope.
 Open Scope N_scope.
@@ -8,6 +8,15 @@ Open Scope N_scope.
 Definition c08t_run (inp : list tok) : list tok :=
   match inp with
   | [TS _; TN ver; TN id] => map TN (touches ver id)
+  | [TS "v5doc"] => map TS v5_doc_failures ++ [TS "end"]
+  | [TS "sfdoc"] => map TS sflow_doc_failures ++ [TS "end"]
+  | [TS "v5layout"] => [TS (if v5_layout_ok then "ok" else "bad")]
+  (* the probe datagrams the documentation theorems evaluate the model on, as bytes for the implementation *)
+  | [TS "v5probe"] => [TB (encode_v5 probe_v5_hdr [probe_v5_rec])]
+  | [TS "sfprobe"; TN k] =>
+      let rs := if k =? 0 then [] else if k =? 1 then [probe_switch] else if k =? 2 then [probe_router]
+                else if k =? 3 then [probe_gateway] else map hdr_rec (firstn 1 (skipn (N.to_nat (k - 10)) probe_frames)) in
+      [TB (encode_sf (probe_pkt rs))]
   | [TS _; TS name] => match col_of_name name with Some c => [TN c] | None => [TS "nocol"] end
   | _ => [TS "badinput"]
   end.
